@@ -277,7 +277,9 @@ fn check_pair(a: &Type, b: &Type, obs: &mut Obs) {
     };
     obs.fp.str(&format!("{a:?}|{b:?}|{p_ab:?}|{lit}"));
     check_common("promote_types", a, b, &p_ab, &p_ba, true, true, obs);
-    if strip_const(a) != strip_const(b) {
+    // (the function presupposes that its arguments are not the same type; two types that differ in the
+    // const flag only are different types, and the const clause applies to them as to any pair)
+    if a != b {
         check_common("promote_types_not_equal", a, b, &n_ab, &n_ba, false, true, obs);
     }
     // equal_base_type: same constructor
